@@ -257,6 +257,8 @@ class Driver:
             await self.rc.send(ev[1], b"payload")
             # whether the server ignores it or drops the connection, the state must not change; synchronise on closure if it comes
             m = await self.rc.recv(timeout=1.0)
+            while m["type"] == "control":  # informational ('wait for the previous connection'): not the outcome of this message
+                m = await self.rc.recv(timeout=1.0)
             if m["type"] == "__closed__":
                 self.note_closed()
             elif m["type"] not in ("__timeout__", "control"):
